@@ -5,7 +5,7 @@
 # (violation; the glue wrote a JSON replay file), 2 = could not build.
 set -u
 ID=$1; TGT=$2; RUNS=$3; PROCS=$4
-V=/verif; T=$V/target
+V=$(cd "$(dirname "$0")/.." && pwd); T=$V/target
 export CARGO_NET_OFFLINE=true RUST_BACKTRACE=0
 mkdir -p $T/fuzz_stats
 (cd $V/fuzz && [ -f Cargo.lock ] || cp $V/harness/Cargo.lock .; cargo +nightly fuzz build --fuzz-dir $V/fuzz --target-dir $T/fuzz >$T/build.log.fuzz 2>&1) || { echo "BUILD FAILURE (fuzz targets)"; grep -E "^error" -A8 $T/build.log.fuzz | head -40; exit 2; }
